@@ -48,13 +48,25 @@ def run(tier):
                       "hdr": {"nv": nv, "ncons": nalg + nlog, "nobj": nobj}})
     # models of the converter-family generator under its acceptance configurations
     gen2, g2 = cvtcases.generate()
-    n2 = 2500 if tier == "thorough" else 420
-    for c in cvtcases.sample(gen2, (cfgs, acc), n2, seed() + 1):
+    # half of them compositions of two models: several constraints of one type with different fates
+    # (delivered / reformulated / unused) are what the status and delivered-set clauses are about
+    n2 = 3000 if tier == "thorough" else 700
+    for c in cvtcases.sample(gen2, (cfgs, acc), n2, seed() + 1, pair_every=2):
         cvtcases.prepare(c)
         gm = c["gen"]
         m = c["model"]
         cases.append({"id": len(cases), "model": m, "opts": [cvtcases.EPS_OPT] + c["opts"] + ["cvt:writegraph=graph.jsonl"], "answer": "status 0 ok\n", "files": {},
                       "tag": "gen:%s:%s:%s:%s:%s:k%s:%s" % (gm["kind"], gm["op"], gm["sh"], "-".join(gm["pat"]), gm["use"], gm["k"], c["cfgname"]),
+                      "hdr": {"nv": len(m["vars"]), "ncons": len(m["cons"]) + len(m["lcons"]), "nobj": len(m["objs"])}})
+    # ... and compositions of two models with the same root operator but different uses, under the configurations
+    # that keep the operator (several constraints of one type with different fates)
+    keep_cfgs = [c_ for c_ in cfgs if c_[0] in ("native", "native-nocones", "level1")]
+    for j, gm in enumerate(cvtcases.same_op_pairs(gen2, 1200 if tier == "thorough" else 260, seed() + 2)):
+        c = cvtcases.prepare({"gen": gm})
+        name_, opts_ = keep_cfgs[j % len(keep_cfgs)]
+        m = c["model"]
+        cases.append({"id": len(cases), "model": m, "opts": [cvtcases.EPS_OPT] + list(opts_) + ["cvt:writegraph=graph.jsonl"], "answer": "status 0 ok\n", "files": {},
+                      "tag": "gen:%s:%s:%s:%s:%s:k%s:%s" % (gm["kind"], gm["op"], gm["sh"], "-".join(gm["pat"]), gm["use"], gm["k"], name_),
                       "hdr": {"nv": len(m["vars"]), "ncons": len(m["cons"]) + len(m["lcons"]), "nobj": len(m["objs"])}})
     runs = drv.run_cases(exe, PID, cases)
     evs = []
